@@ -221,6 +221,13 @@ def _mixed_spec(rng) -> tuple[dict, str]:  # noqa: ANN001
 MISS_RE = re.compile(r"^\t(.+?): (\[.*\])$", re.M)
 
 
+AWAY_T = 1.75
+
+
+def _away_state(model) -> dict:  # noqa: ANN001
+    return {v: 2.25 + 0.5 * i for i, v in enumerate(sorted(model.get_variable_names()))}
+
+
 def _observe(model) -> dict:  # noqa: ANN001
     """Call the three observation points; classify outcome of each."""
     from mxlpy.model import CircularDependencyError, MissingDependenciesError
@@ -230,6 +237,9 @@ def _observe(model) -> dict:  # noqa: ANN001
         ("get_args", lambda: model.get_args().to_dict()),
         ("get_initial_conditions", lambda: dict(model.get_initial_conditions())),
         ("get_right_hand_side", lambda: model.get_right_hand_side().to_dict()),
+        # "each component seeing the finished values of everything it names" - also away from the initial state and t = 0
+        ("get_args_at_state", lambda: model.get_args(_away_state(model), AWAY_T).to_dict()),
+        ("get_right_hand_side_at_state", lambda: model.get_right_hand_side(_away_state(model), AWAY_T).to_dict()),
     ):
         _STATE["count"] = 0
         try:
@@ -275,6 +285,14 @@ def check_graph(spec: dict, orders: list[list[int]], tag: str) -> tuple[list[dic
                     bad = {k: (v, exp.get(k)) for k, v in payload.items() if k in exp and not core.close(v, exp[k])}
                 elif point == "get_initial_conditions":
                     exp = expect_vals.initial_conditions()
+                    bad = {k: (v, exp.get(k)) for k, v in payload.items() if not core.close(v, exp.get(k, float("nan")))}
+                elif point == "get_args_at_state":
+                    st_ = {v: 2.25 + 0.5 * i for i, v in enumerate(sorted(expect_vals.variables))}
+                    exp = expect_vals.at(st_, AWAY_T, readouts=False)
+                    bad = {k: (v, exp.get(k)) for k, v in payload.items() if k in exp and k != "time" and not core.close(v, exp[k])}
+                elif point == "get_right_hand_side_at_state":
+                    st_ = {v: 2.25 + 0.5 * i for i, v in enumerate(sorted(expect_vals.variables))}
+                    exp = expect_vals.rhs(st_, AWAY_T)
                     bad = {k: (v, exp.get(k)) for k, v in payload.items() if not core.close(v, exp.get(k, float("nan")))}
                 else:
                     exp = expect_vals.rhs(None, 0.0)
